@@ -47,9 +47,9 @@ CHECKS.update({
         note="Trusted: container/heap pops in sorted order for a strict weak order (library contract, exercised); Coq kernel, extraction, drivers; agreement sampled per run. The relative order of ClusterCIDRs WITHOUT selector (all come last) is creation order in code and model; the property does not fix it.",
         ref="§5 C07"),
     "C17": dict(
-        technique="Coq proof (considered iff every requirement holds; same key => same meaning, under the named round-trip hypothesis RT; semantics of the six operators; unrepresentable selector rejected) + differential validation of RT: real print/parse path vs the model applied to the selector's own requirements",
-        text="Theorems (Properties/C17.v); the hypothesis RT about apimachinery's Selector.String/labels.Parse is exercised on ~15,000 (selector, label set) pairs per run including keys 'in'/'notin', numeric comparisons, repeated keys.",
-        note="PARTIAL: the print/parse round trip of k8s.io/apimachinery/pkg/labels is a named hypothesis (stage 2 of DESIGN C17 not done), validated by differential testing only. Trusted also: Coq kernel, extraction, drivers.",
+        technique="Coq proof (the print/parse round trip of label selectors proved of a model of apimachinery's validation, printer, lexer and parser; nodeSelectorKey yields a key exactly for representable selectors; on that key matchCIDRLabels says 'match' iff every requirement holds; same key => same meaning; semantics of the six operators; unrepresentable selector rejected) + differential correspondence: labels.Parse vs the model on arbitrary texts, nodeSelectorKey byte for byte, and the real print/parse path vs the model applied to the selector's own requirements",
+        text="Theorems (Properties/C17.v): C17_print_parse_round_trip, C17_key_exactly_for_representable_selectors, C17_considered_iff_selector_holds, C17_same_key_same_meaning hold for every list of requirements labels.NewRequirement accepts; tied to the code by running labels.Parse, nodeSelectorKey and matchCIDRLabels against the model on ~20,000 lines per run including keys 'in'/'notin', numeric comparisons, repeated keys, empty values, NUL bytes and token soup.",
+        note="The theorems are about Lbl.v, a hand transcription of k8s.io/apimachinery/pkg/labels/selector.go v0.28.3 and util/validation (modelled, not verified; sort.Sort modelled as a stable sort, the theorems hold for any order of equal keys); its agreement with the library is sampled per run. Trusted also: Coq kernel, extraction, drivers.",
         ref="§5 C17"),
     "C18": dict(
         technique="Coq proof (validate_spec = 0 errors iff documented acceptance condition, for every library oracle answer; update validation = 0 iff specs equal) + exhaustive-grid correspondence on error counts",
